@@ -8,6 +8,9 @@
 //     p-c, c-h, c+h are all representable, ambiguity band of 4 eps * largest operand otherwise)
 //   * OBB containment   <=>  |(R^T (p-c))_j| <= h_j                  (exact regime: signed
 //     permutation R and representable p-c; band 8 eps * sum_k |R_kj| (|p_k|+|c_k|) otherwise)
+//     both containments are also driven with tiny lengths (half extents / offsets 0, denormal, log-uniform
+//     up from the denormals; centre at the origin => every operand representable => exact regime); the
+//     bands then include the absolute error of underflowing products
 //   * OBB -> AABB: brute force over the 2^DIM corners c + R (s o h): every corner is inside the
 //     returned box and every face is reached by some corner (16 eps * half-extent + 2 eps * |c|)
 //   * Interval::include == running componentwise min/max (exact), Interval::inside closed (exact)
@@ -252,7 +255,7 @@ static Verdict aabb_truth(
     LD m = fabsl(d) - (LD)h[j];
     bool ex = repr<S>(d) && repr<S>((LD)c[j] - (LD)h[j]) && repr<S>((LD)c[j] + (LD)h[j]);
     LD big = max3(fabsl((LD)p[j]), fabsl((LD)c[j]), (LD)h[j]);
-    LD band = ex ? 0 : 4 * epsL<S>() * big;
+    LD band = ex ? 0 : 4 * epsL<S>() * big + 2 * (LD)std::numeric_limits<S>::denorm_min();
     if (big > 0) {closest_rel = std::min(closest_rel, fabsl(m) / big);}
     if (!ex) {all_exact = false;}
     if (m > band) {any_out = true;} else if (ex ? (m <= 0) : (m < -band)) { /* inside in j */} else {all_in = false;}
@@ -369,7 +372,8 @@ static Verdict obb_truth(
       mag += fabsl((LD)R(k, j)) * (fabsl((LD)p[k]) + fabsl((LD)c[k]));
     }
     LD m = fabsl(q) - (LD)h[j];
-    LD band = all_exact ? 0 : 8 * epsL<S>() * std::max(mag, (LD)h[j]);
+    // relative rounding of the sums and products, plus the absolute error of products that underflow
+    LD band = all_exact ? 0 : 8 * epsL<S>() * std::max(mag, (LD)h[j]) + 4 * D * (LD)std::numeric_limits<S>::denorm_min();
     LD big = std::max(mag, (LD)h[j]);
     if (big > 0) {closest_rel = std::min(closest_rel, fabsl(m) / big);}
     if (m > band) {any_out = true;} else if (all_exact ? (m <= 0) : (m < -band)) {} else {all_in = false;}
@@ -447,6 +451,91 @@ static void case_obb_inside(vh::Ctx & c, vh::Rng & r, bool exact_cat)
   c.expect(all_exact ? "obb.inside.exact" : "obb.inside.generic", got == (t == V_IN), "obb_inside_wrong", params, w2);
   if (all_exact && closest == 0) {c.count("obb_exact_on_boundary_checked");}
   (void)boundary;
+}
+
+// ------------------------------------------------------------------------------------------
+// B'/D'. boxes whose lengths are tiny: half extents 0, the smallest denormal, or log-uniform from
+// the denormals up to 1e-3; centre at the origin, tiny, or ordinary; query points displaced from
+// the faces by offsets of the same tiny scales, either side.  With the centre at the origin (and
+// an axis permutation as rotation) every operand is representable, so the verdict is required
+// exactly; otherwise the band (which includes the absolute error of underflowing products) decides.
+// ------------------------------------------------------------------------------------------
+template<class S> static LD tiny_len(vh::Rng & r)
+{
+  const bool dbl = sizeof(S) == 8;
+  int m = (int)r.range(0, 9);
+  if (m == 0) {return 0;}
+  if (m == 1) {return (LD)std::numeric_limits<S>::denorm_min();}
+  if (m == 2) {return (LD)std::numeric_limits<S>::min() * (LD)r.logu(0.25, 4);}      // around the smallest normal
+  return (LD)(S)(dbl ? r.logu(1e-300, 1e-3) : r.logu(1e-44, 1e-3));
+}
+
+template<class S, int D>
+static void case_tiny_box(vh::Ctx & c, vh::Rng & r, bool oriented)
+{
+  using V = Eigen::Matrix<S, D, 1>;
+  const char * cat = oriented ? "obb_inside_tiny_lengths" : "aabb_inside_tiny_lengths";
+  c.cat(cat);
+  c.cat("tiny_length_boxes");
+  V ce, h, p;
+  Rot<S, D> rot = GenRot<S, D>::go(r, !oriented || r.coin(0.6));
+  if (!oriented) {rot.R.setIdentity(); rot.perm = true; rot.mode = 0;}
+  int cm = (int)r.range(0, 9);      // centre: 0..4 origin, 5..7 tiny, 8..9 ordinary
+  bool same_scale = r.coin(0.5);    // all axes share one tiny scale (keeps the other axes from deciding)
+  LD common = tiny_len<S>(r);
+  LD loc[D];
+  for (int j = 0; j < D; ++j) {
+    LD hj = same_scale && r.coin(0.7) ? common : tiny_len<S>(r);
+    h[j] = (S)hj;
+    ce[j] = cm <= 4 ? (S)0 : cm <= 7 ? (S)(r.sign() * (double)tiny_len<S>(r)) : (S)r.uni(-1, 1);
+    // local coordinate of the query point
+    int m = (int)r.range(0, 9);
+    LD sg = r.sign();
+    LD off;
+    int om = (int)r.range(0, 3);
+    if (om == 0) {off = (LD)std::numeric_limits<S>::denorm_min() * (LD)r.range(1, 3);} else if (om == 1) {
+      off = tiny_len<S>(r);
+    } else if (om == 2) {off = (LD)h[j] * (LD)r.logu(1e-8, 1.0);} else {off = (LD)h[j] * epsL<S>() * (LD)r.range(1, 8);}
+    if (m <= 2) {loc[j] = (LD)h[j] * (LD)r.uni(-1, 1);}                 // inside
+    else if (m == 3) {loc[j] = sg * (LD)h[j];}                          // on the face
+    else if (m == 4) {loc[j] = 0;}
+    else if (m <= 7) {loc[j] = sg * ((LD)h[j] + off);}                  // outside by a tiny offset
+    else {loc[j] = sg * ((LD)h[j] - off);}                              // inside by a tiny offset (may cross over)
+  }
+  if ((h.array() == 0).all()) {c.cat("tiny_zero_extent");}
+  if (cm <= 4) {c.cat("tiny_centre_origin");}
+  for (int i = 0; i < D; ++i) {
+    LD v = (LD)ce[i];
+    for (int j = 0; j < D; ++j) {v += (LD)rot.R(i, j) * loc[j];}
+    p[i] = (S)v;
+  }
+  c.distinct(hvec(hvec(hvec(hvec(vh::hash_addi(0xE1, SN<S>::id * 8 + D + (oriented ? 64 : 0)), ce), h), p), rot.R), true);
+  auto wit = [&]() {return box_json<S, D>(cat, ce, h, &p, oriented ? &rot.R : nullptr);};
+  c.sample(cat, wit);
+
+  bool got, all_exact; LD closest;
+  Verdict t;
+  if (oriented) {
+    romea::core::OrientedBoundingBox<S, D> box(ce, h, rot.R);
+    got = box.isInside(p);
+    t = obb_truth<S, D>(ce, h, rot.R, rot.perm, p, all_exact, closest);
+  } else {
+    romea::core::AxisAlignedBoundingBox<S, D> box(ce, h);
+    got = box.isInside(p);
+    t = aabb_truth<S, D>(ce, h, p, all_exact, closest);
+  }
+  if (t == V_AMBIG) {c.skip(oriented ? "obb.inside.tiny:ambiguity_band" : "aabb.inside.tiny:ambiguity_band"); return;}
+  auto params = [&]() {
+      return Params{{"scalar", (double)SN<S>::id}, {"dim", (double)D}, {"expected_inside", t == V_IN ? 1.0 : 0.0},
+        {"exact_regime", all_exact ? 1.0 : 0.0}, {"rotation_mode", (double)rot.mode},
+        {"rel_distance_to_face", (double)closest}, {"min_half_extent", (double)h.minCoeff()},
+        {"max_half_extent", (double)h.maxCoeff()}, {"max_abs_centre", (double)ce.cwiseAbs().maxCoeff()}};
+    };
+  auto w2 = [&]() {return J().raw("case", wit()).boolean("library_inside", got).str();};
+  const char * oracle = oriented ? (all_exact ? "obb.inside.tiny.exact" : "obb.inside.tiny.generic") :
+    (all_exact ? "aabb.inside.tiny.exact" : "aabb.inside.tiny.generic");
+  c.expect(oracle, got == (t == V_IN), oriented ? "obb_inside_wrong" : "aabb_inside_wrong", params, w2);
+  if (all_exact && t == V_OUT) {c.count("tiny_exact_outside_checked");}
 }
 
 // ------------------------------------------------------------------------------------------
@@ -918,10 +1007,15 @@ static void case_container(vh::Ctx & c, vh::Rng & r, const char * tname)
 static void one_case(vh::Ctx & c, uint64_t idx)
 {
   vh::Rng r(c.seed, idx);
-  int k = (int)r.range(0, 19);
+  int k = (int)r.range(0, 21);
   int sd = (int)r.range(0, 3);
   c.cat(sd < 2 ? "scalar_float" : "scalar_double");
-  if (k == 0) {
+  if (k >= 20) {
+    bool oriented = r.coin(0.6);
+#define CALL(S, D) case_tiny_box<S, D>(c, r, oriented)
+    C20_DISPATCH_SD(CALL)
+#undef CALL
+  } else if (k == 0) {
 #define CALL(S, D) case_aabb_interval<S, D>(c, r)
     C20_DISPATCH_SD(CALL)
 #undef CALL
